@@ -22,7 +22,10 @@ BE(ws) == IF ws = << >> THEN << >> ELSE << ws[1] \div 256, ws[1] % 256 >> \o BE(
 ObjectBytes(ast) == BE(<< Origin(ast) >> \o Image(ast))
 
 (* ---- C14: transports ---- *)
-EchoOf(line) == LET c == ParseLine(line) IN IF c.n = "echo" THEN << "[" \o c.s \o "]" >> ELSE << >>
+(* what a delivered line visibly does in a session on a halted program: echo prints its text, registers a dump *)
+EchoOf(line) == LET c == ParseLine(line) IN
+                IF c.n = "echo" THEN << "[" \o c.s \o "]" >>
+                ELSE IF c.n = "registers" THEN << "<registers>" >> ELSE << >>
 RECURSIVE Echoes(_)
 Echoes(ls) == IF ls = << >> THEN << >> ELSE EchoOf(ls[1]) \o Echoes(Tail(ls))
 TransportOk(e) ==
@@ -43,6 +46,9 @@ LoadOk(e) ==
 (* running the object file behaves like running the source *)
 (* ... and (ESC characters aside, D9) prints the same with and without --minimal *)
 PairOk(e) == e.asm = e.obj /\ e.full = e.asm
+
+(* ---- C09 at the command line: a session of non-mutating commands ending in quit is invisible ---- *)
+DbgPairOk(e) == e.run = e.dbg
 
 (* ---- C07: check, compile, run agree ---- *)
 AgreeOk(e) ==
@@ -105,6 +111,7 @@ Explains(e) ==
     [] e.ev = "compile"   -> CompileOk(e)
     [] e.ev = "loadfile"  -> LoadOk(e)
     [] e.ev = "runpair"   -> PairOk(e)
+    [] e.ev = "dbgpair"   -> DbgPairOk(e)
     [] e.ev = "agree"     -> AgreeOk(e)
     [] e.ev = "atomic"    -> AtomicOk(e)
     [] e.ev = "gate"      -> GateOk(e)
